@@ -9,7 +9,7 @@ the immutable writers MerImmut::set / set_slice (runs up to 32 bases) produce th
 base_to_bits / bits_to_base being uninterpreted here and decided in C16.1).
 This decides the bit-level behaviour of the listed operations, by abstract interpretation of the monomorphic MIR;
 nothing is executed and no k-mer value is enumerated."""
-from .. import lemmas, structural, dt_seq
+from .. import dt_strings, lemmas, structural, dt_seq
 from . import common
 
 THOROUGH_FACTS = True
@@ -27,3 +27,5 @@ def run(F, rep):
     rep.run(lemmas.kmer_base_iter_lemmas, F, rep, "L-kmer-iter")
     for ty in common.kmer_type_names(F):
         rep.run(lemmas.kmer_default_lemmas, F, rep, ty, rule="L-default")
+    # "construction from ... ASCII": the byte table behind from_ascii / kmers_from_ascii
+    rep.run(dt_strings.byte_tables, F, rep, "C10.ascii")
